@@ -172,15 +172,16 @@ CLAIMED = {
  'C08': dict(
     category='proof',
     text="Per year, Rocq theorem C08_statutory_amounts_<year>: probes_ok cat tax probes = true - for every (tax year, filing status, item) of "
-         "the independent oracle table (oracles/statutory.json: 18 items x statuses x years, 240 triples, each with its citation), the "
+         "the independent oracle table (oracles/statutory.json: 40 items x statuses x years, each with its citation), the "
          "shipped line that shows the amount, evaluated by the interpreter of the regenerated deep embedding on a minimal store, yields the "
          "published amount (or switches outcome exactly at it). Exhaustive over the finite triple set, decided by vm_compute in the kernel; "
          "works uniformly for 2023 threshold tables and the 2021/2022 inline if/elif chains because both live in the translated lines. "
          "Every probe is also replayed on the real line (Field.value). Tie: translator validation on real returns.",
     design_ref='DESIGN.md §4 C08',
     note="Coverage = the oracle's item list (standard deduction, capital-gain breakpoints, AMT exemption/phase-out/28% breakpoint, Additional "
-         "Medicare threshold and rate, SALT cap, CTC/ODC/ACTC amounts, NC rate and standard deduction, 2021 recovery-rebate amounts); HSA, QBI, "
-         "EIC, retirement-savings and foreign-tax limits are in the code's tables but not yet in the oracle. The oracle is a hand "
+         "Medicare threshold and rate, SALT cap, CTC/ODC/ACTC amounts, NC rate and standard deduction, 2021 recovery-rebate amounts, EIC AGI and investment-income limits, QBI simplified-form income limit, HSA limits, retirement-savings and "
+         "foreign-tax limits, Schedule B thresholds, medical floor, educator-expense maximum, NC child-deduction brackets and NC $20,000 cap); "
+         "EIC credit amounts and the NC real-estate-tax limit are not in the oracle. The oracle is a hand "
          "transcription (trusted). Each probe holds for every store that agrees with the minimal one on the names the line reads "
          "(monotonicity of the interpreter is argued, not proved).",
     technique='Rocq reflective evaluation (vm_compute) of regenerated line definitions against an independent cited table',
